@@ -121,6 +121,26 @@ func one(rng *rand.Rand, res int, inbound bool, batch uint32, withArgs, traceErr
 	return true
 }
 
+// oneBare: an inbound request through a chain that holds nothing but the statistic slot (no node-prepare slot, so the
+// entry has no resource node): it is still one outcome of the inbound total - pass, completion (with its error) and
+// an in-flight unit that is given back
+var bareChain *base.SlotChain
+
+func oneBare(rng *rand.Rand, batch uint32, traceErr bool) {
+	e, b := sentinel.Entry("c01par-bare", sentinel.WithSlotChain(bareChain), sentinel.WithBatchCount(batch), sentinel.WithTrafficType(base.Inbound))
+	if b != nil || e == nil {
+		return
+	}
+	t := &tallies[nRes]
+	atomic.AddInt64(&t.pass, int64(batch))
+	if traceErr {
+		sentinel.TraceError(e, errors.New("x"))
+		atomic.AddInt64(&t.errs, int64(batch))
+	}
+	atomic.AddInt64(&t.complete, int64(batch))
+	e.Exit()
+}
+
 func main() {
 	sx.Quiet()
 	run := vk.Start("C01", "par")
@@ -131,6 +151,8 @@ func main() {
 	chain = sentinel.BuildDefaultSlotChain()
 	chain.AddRuleCheckSlot(boom{})
 	chain.AddStatSlot(recorder{})
+	bareChain = base.NewSlotChain()
+	bareChain.AddStatSlot(stat.DefaultSlot)
 	for i := range names {
 		names[i] = fmt.Sprintf("c01par-%d", i)
 	}
@@ -156,6 +178,10 @@ func main() {
 			go func() {
 				defer wg.Done()
 				for k := 0; k < K; k++ {
+					if rng.Intn(12) == 0 {
+						oneBare(rng, uint32(1+rng.Intn(3)), rng.Intn(4) == 0)
+						continue
+					}
 					one(rng, rng.Intn(nRes), rng.Intn(2) == 0, uint32(1+rng.Intn(3)), rng.Intn(2) == 0, rng.Intn(4) == 0, rng.Intn(4) == 0, rng.Intn(40) == 0)
 				}
 			}()
